@@ -5,7 +5,7 @@ import numpy as np
 
 DISTS = ['uniform', 'clustered', 'lattice', 'lattice_faces', 'collinear',
          'coplanar', 'coincident', 'single', 'empty', 'sparse_corner',
-         'two_blobs']
+         'two_blobs', 'axis_flat']
 HMODES = ['const', 'smooth', 'loguniform', 'two_scale']
 
 
@@ -39,6 +39,16 @@ def positions(rng, dist, n, dim, L=1.0):
         q = rng.uniform(0, L, size=(n, dim))
         if dim == 3:
             q[:, 2] = 0.3 * q[:, 0] + 0.2 * q[:, 1]
+        p[:, :dim] = q
+    elif dist == 'axis_flat':
+        # all particles share one (or two) of the coordinates exactly: a
+        # sheet or a rod aligned with the axes inside a dim-dimensional
+        # search (zero extent along an axis that is in use)
+        q = rng.uniform(0, L, size=(n, dim))
+        if dim > 1:
+            nflat = int(rng.integers(1, dim))
+            for ax in rng.choice(dim, size=nflat, replace=False):
+                q[:, ax] = float(rng.uniform(0, L))
         p[:, :dim] = q
     elif dist == 'coincident':
         c = rng.uniform(0, L, size=(max(1, n // 4), dim))
